@@ -65,6 +65,7 @@ package hub
 //@ func (h *Hub).HandleShipHandshakeStateUpdate(ski, state) entry [C01,C18]
 //@   implements api.ShipConnectionInfoProviderInterface.HandleShipHandshakeStateUpdate
 //@   requires @HUBINV(h)
+//@   ensures [C18] N5-replace-reports: @K() in old(h.remoteServices) && h.remoteServices[@K()].connectionStateDetail != old(h.remoteServices[@K()].connectionStateDetail) ==> spawncount() == 1
 //@   ensures [C18] N1-stored: state.Error == nil ==> h.remoteServices[@K()].connectionStateDetail.state == mapState(state.State)
 //@   atcall HandleShipHandshakeStateUpdate$1 [C18] N1-own: $cap_pairingDetail == $cap_service.connectionStateDetail && $cap_service == h.remoteServices[@K()] && $cap_ski == ski && $cap_pairingDetail.state == ite(state.Error == nil, mapState(state.State), $cap_pairingDetail.state)
 //@   ensures [C01] G5-trust: forall j: string :: $Trusted[j] == (old($Trusted[j]) || (j == @K() && state.State == model.SmeHelloStateOk))
@@ -77,6 +78,8 @@ package hub
 //@   ensures [C15] R2-others: @RSFRAME(h) && (forall j: string :: j != @K() ==> $Trusted[j] == old($Trusted[j]))
 //@   ensures [C15] R3-approve: old(h.hasStarted) && @K() in old(h.connections) ==> old(h.connections[@K()]).$approveCalls == old(h.connections[@K()].$approveCalls) + 1
 //@   ensures [C15] R4-queued: old(h.hasStarted) && !(@K() in old(h.connections)) ==> h.remoteServices[@K()].connectionStateDetail.state == api.ConnectionStateQueued
+// (whoever replaces the stored detail object reports the new one: a report still waiting for the old object drops itself)
+//@   ensures [C18] N5-replace-reports: @K() in old(h.remoteServices) && h.remoteServices[@K()].connectionStateDetail != old(h.remoteServices[@K()].connectionStateDetail) ==> callcount(ServicePairingDetailUpdate) >= 1
 //@   atcall ServicePairingDetailUpdate [C15] R5-callback: $0 == @K()
 //@   atcall ServicePairingDetailUpdate [C18] N3-stored: @K() in h.remoteServices && $1 == h.remoteServices[@K()].connectionStateDetail
 //@   modifies *
@@ -88,6 +91,8 @@ package hub
 //@   ensures [C10,C15] D2-counter: !(@K() in h.connectionAttemptCounter)
 //@   ensures [C15,C01] U1-closed: @K() in old(h.connections) ==> old(h.connections[@K()]).$closeCalls == old(h.connections[@K()].$closeCalls) + 1 && old(h.connections[@K()]).$lastSafe && old(h.connections[@K()]).$lastCode == 4500
 //@   ensures [C15] U2-others: @RSFRAME(h) && (forall j: string :: j != @K() ==> $Trusted[j] == old($Trusted[j]))
+// (whoever replaces the stored detail object reports the new one: a report still waiting for the old object drops itself)
+//@   ensures [C18] N5-replace-reports: @K() in old(h.remoteServices) && h.remoteServices[@K()].connectionStateDetail != old(h.remoteServices[@K()].connectionStateDetail) ==> callcount(ServicePairingDetailUpdate) >= 1
 //@   atcall ServicePairingDetailUpdate [C15] U3-callback: $0 == @K()
 //@   atcall ServicePairingDetailUpdate [C18] N3-stored: @K() in h.remoteServices && $1 == h.remoteServices[@K()].connectionStateDetail
 //@   modifies *
@@ -101,6 +106,8 @@ package hub
 //@   ensures [C10,C01] D3-untrusted: @K() in h.remoteServices && !h.remoteServices[@K()].trusted && h.remoteServices[@K()].connectionStateDetail.state == api.ConnectionStateNone
 //@   ensures [C10,C15] D3-counter: !(@K() in h.connectionAttemptCounter)
 //@   ensures [C15] C2-others: @RSFRAME(h) && (forall j: string :: j != @K() ==> $Trusted[j] == old($Trusted[j]))
+// (whoever replaces the stored detail object reports the new one: a report still waiting for the old object drops itself)
+//@   ensures [C18] N5-replace-reports: @K() in old(h.remoteServices) && h.remoteServices[@K()].connectionStateDetail != old(h.remoteServices[@K()].connectionStateDetail) ==> callcount(ServicePairingDetailUpdate) >= 1
 //@   atcall ServicePairingDetailUpdate [C15] C3-callback: $0 == @K()
 //@   atcall ServicePairingDetailUpdate [C18] N3-stored: @K() in h.remoteServices && $1 == h.remoteServices[@K()].connectionStateDetail
 //@   modifies *
